@@ -17,15 +17,15 @@ PROPS = {
                            "of all DAGs within the scope listed under bounded_checks. Part (2) is bounded, not proved, hence level 'other' rather than 'proof'."},
     "C03": {"rt": ["rt_executor"], "level": "proof", "assumes": [A_PY, A_OS, A_PLAN]},
     "C04": {"rt": ["rt_executor", "rt_env"], "level": "proof", "assumes": [A_PY, A_OS, A_PLAN]},
-    "C05": {"rt": ["rt_versions"], "level": "proof", "assumes": [A_PY, A_GIT, A_SQL]},
-    "C06": {"rt": ["rt_tee", "rt_crash", "rt_archive", "rt_sigchld"], "level": "proof", "assumes": [A_PY, A_SQL, A_LIB]},
+    "C05": {"rt": ["rt_versions", "rt_sqlmodel"], "level": "proof", "assumes": [A_PY, A_GIT, A_SQL]},
+    "C06": {"rt": ["rt_tee", "rt_crash", "rt_archive", "rt_sigchld", "rt_sqlmodel"], "level": "proof", "assumes": [A_PY, A_SQL, A_LIB]},
     "C07": {"rt": ["rt_env", "rt_planner"], "level": "proof", "assumes": [A_PY, A_LIB]},
-    "C08": {"rt": ["rt_versions"], "level": "proof", "assumes": [A_PY, A_SQL, A_LIB]},
+    "C08": {"rt": ["rt_versions", "rt_sqlmodel"], "level": "proof", "assumes": [A_PY, A_SQL, A_LIB]},
     "C09": {"rt": ["rt_executor", "rt_sigchld"], "level": "proof", "assumes": [A_PY, A_OS, A_SIG, A_PLAN]},
     "C10": {"rt": ["rt_tee"], "level": "proof", "assumes": [A_PY, A_OS, A_LIB]},
-    "C11": {"rt": ["rt_traverse", "rt_archive"], "level": "proof", "assumes": [A_PY, A_SQL, A_LIB]},
-    "C12": {"rt": ["rt_archive"], "level": "proof", "assumes": [A_PY, A_SQL, A_LIB]},
-    "C13": {"rt": ["rt_fs", "rt_identifiers"], "level": "proof", "assumes": [A_PY, A_LIB]},
+    "C11": {"rt": ["rt_traverse", "rt_archive", "rt_sqlmodel"], "level": "proof", "assumes": [A_PY, A_SQL, A_LIB]},
+    "C12": {"rt": ["rt_archive", "rt_sqlmodel"], "level": "proof", "assumes": [A_PY, A_SQL, A_LIB]},
+    "C13": {"rt": ["rt_fs", "rt_identifiers", "rt_sqlmodel"], "level": "proof", "assumes": [A_PY, A_LIB]},
     "C14": {"rt": ["rt_taskindex", "rt_deps"], "level": "proof", "assumes": [A_PY]},
     "C15": {"rt": ["rt_parsing"], "level": "proof", "assumes": [A_PY, A_LIB]},
     "C16": {"rt": ["rt_abort"], "level": "proof", "assumes": [A_PY, A_OS, A_SIG]},
